@@ -111,6 +111,9 @@
 //!              `filter_map` / `any` / `position` / `Option::map` / `enumerate` adaptors (pure or monadic closures); match
 //!              guards (desugared); `Box<[T]>`, `mem::take` of it, `into_vec` / `into_boxed_slice`; `Duration::as_secs`;
 //!              methods named like fields get a `'`; `&mut` in struct / enum fields rejected unless BORROWED_FIELDS_OK
+//!              finder fns (`-> Option<&mut T>` with body `iter_mut().flatten().find(..)`: position + call-site alias);
+//!              BORROWED_RETURN_OK (a returned `&[u8]` slice of `self` by value); `&mut buf[a..b]` rvalue snapshots; `i32`
+//!              comparisons and `as uW` casts (`RustSem.cast_i32`); `if let Some(x) = &mut place`; `Option::take` on a place
 //!   not supported: `loop`, valued `break`, closures other than the pure `map` / `or_insert_with` ones, generics, traits, signed integers, floats,
 //!              references stored in data, `ref mut`, `&mut` parameters other than `self`, unsigned integers and the
 //!              octets / io cursors.
